@@ -1409,6 +1409,7 @@ def mon_c10(tr: Trace, earlier_users: dict[tuple, set] | None = None) -> list[Vi
                 outcomes.append(o)
         if len(outcomes) > 1:
             out.append(Violation("C10/resumed_more_than_once", f"wait {key} of one invocation finished with {len(outcomes)} different outcomes: {outcomes}", case))
+            out[-1].meta = {"step": key[0], "uid": key[1]}  # type: ignore[attr-defined]
     # ... and the waiting step completes at most once per input event and attempt
     done_ok: dict[tuple, int] = {}
     wait_steps = {s["name"] for s in tr.spec["steps"] if any(a[0] == "wait" for a in s["script"])}
@@ -1424,6 +1425,7 @@ def mon_c10(tr: Trace, earlier_users: dict[tuple, set] | None = None) -> list[Vi
         wids = {k[3] for k in per_wait if k[0] == step and k[1] == uid}
         if n > 1 and wids and not any(len(users.get((step, w), ())) > 1 for w in wids):
             out.append(Violation("C10/resumed_more_than_once", f"step '{step}' completed {n} times for input event {uid} (attempt {rn}) with waits {sorted(map(str, wids))}", case))
+            out[-1].meta = {"step": step, "uid": uid}  # type: ignore[attr-defined]
     # reducer-level facts on the real ticks: waiter_event and timers only on creation; resolved waiters are left alone
     for c in _runner_calls(tr):
         if c.kind != "reduce" or c.after is None:
@@ -1456,6 +1458,117 @@ def mon_c10(tr: Trace, earlier_users: dict[tuple, set] | None = None) -> list[Vi
                 e = w.resolved_event
                 if e is not None and (type(e) is not w.waiting_for_event or any(getattr(e, k, None) != v for k, v in w.requirements.items())):
                     out.append(Violation("C10/waiter_resolved_with_non_matching_event", f"step {nm}: waiter {w.waiter_id!r} for {w.waiting_for_event.__name__} {w.requirements} holds {type(e).__name__} k={getattr(e, 'k', None)}", case))
+    # the same clauses per logical wait, from what the step bodies asked for (independent of the engine's waiter ids)
+    out += c10_wait_rules(tr, earlier_users)
+    return out
+
+
+def c10_wait_rules(tr: Trace, earlier_users: dict[tuple, set] | None = None) -> list[Violation]:
+    """The property per LOGICAL wait, from what the step bodies asked for (`tr.wait_calls`, recorded by the harness's step
+    bodies) and what the engine then did -- never from the waiter ids / waiter records the engine keeps (a defect in how
+    waits are told apart corrupts exactly those).  A logical wait is (step, input event of the invocation, label), label =
+    the explicit waiter id or, for the default id, (awaited type, requirement value).  Labels used by two invocations of a
+    step are one shared waiter by design and are left to the id-level rules of `mon_c10`.
+
+    * announced once: a wait with a waiter_event has that event published exactly once (at most once in a resumed run);
+    * waits for its reply: a wait returns / raises TimeoutError only after it was registered (its AddWaiter was reduced);
+    * resumes with its reply: the first event of the awaited type that satisfies the wait's requirement and is routed to
+      its step, reduced while the wait is registered and not timed out, replays (or queues the replay of) the invocation."""
+    wcs = getattr(tr, "wait_calls", None) or []
+    if not wcs or tr.outcome[0] in ("invalid", "runaway", "aborted"):
+        return []
+    out: list[Violation] = []
+    case = _replay(tr)
+    resumed = bool(tr.spec.get("_resumed"))
+    users: dict[tuple, set] = {}
+    for w in wcs:
+        users.setdefault((w["step"], w["label"]), set()).add(w["uid"])
+    for k, v in (earlier_users or {}).items():
+        users.setdefault(k, set()).update(v)
+    shared = {k for k, v in users.items() if len(v) > 1}
+    reg: dict[tuple, dict] = {}  # logical wait -> first registration seen in this trace
+    pending: dict[tuple, dict] = {}
+    said: set = set()
+    returned: dict[tuple, list] = {}
+    for w in wcs:
+        if w["outcome"] in ("got", "timeout"):
+            returned.setdefault((w["step"], w["uid"], w["label"]), []).append(w)
+    for idx, c in enumerate(tr.calls):
+        if c.caller not in ("run", "_process_tick") or c.kind != "reduce" or c.after is None:
+            continue
+        tk = c.tick
+        # a wait that has returned / raised in the meantime is over (whatever it returned is judged by the other rules)
+        for lw in [lw for lw in pending if any(x["at_call"] <= idx and x["at_call"] > reg[lw]["idx"] for x in returned.get(lw, ()))]:
+            del pending[lw]
+        if isinstance(tk, T.TickStepResult):
+            uid = getattr(tk.event, "uid", None)
+            for r in tk.result:
+                if not isinstance(r, R.AddWaiter):
+                    continue
+                ty = ET.TY_ID.get(r.event_type, -1)
+                k = (r.requirements or {}).get("k")
+                cand = [w for w in wcs if w["step"] == tk.step_name and w["uid"] == uid and w["outcome"] == "suspended"
+                        and w["ty"] == ty and w["k"] == k and w["at_call"] <= idx and not w.get("_reg")]
+                if not cand:
+                    continue
+                w = cand[0]
+                w["_reg"] = True
+                lw = (w["step"], w["uid"], w["label"])
+                if lw not in reg:
+                    reg[lw] = {"idx": idx, "w": w}
+                    pending[lw] = w
+        elif isinstance(tk, T.TickWaiterTimeout):
+            # which wait the timer belongs to is the engine's bookkeeping: no expectation for any timed wait of that step from here on
+            for lw in [lw for lw, w in pending.items() if lw[0] == tk.step_name and w["timeout"] is not None]:
+                del pending[lw]
+        elif isinstance(tk, T.TickAddEvent):
+            e = tk.event
+            for lw in list(pending):
+                w = pending[lw]
+                step = lw[0]
+                if tk.step_name is not None and tk.step_name != step:
+                    continue
+                if type(e) is not ET.TYPES[w["ty"]] or (w["k"] is not None and getattr(e, "k", None) != w["k"]):
+                    continue
+                del pending[lw]
+                if (step, w["label"]) in shared:
+                    continue
+                ran = any(isinstance(x, C.CommandRunWorker) and x.step_name == step and getattr(x.event, "uid", None) == w["uid"] for x in c.cmds)
+                queued = any(getattr(a.event, "uid", None) == w["uid"] for a in c.after.workers[step].queue)
+                if not ran and not queued:
+                    out.append(Violation("C10/matching_reply_did_not_resume_wait",
+                                         f"step {step}: the invocation for input event {w['uid']} is suspended in wait_for_event(T{w['ty']}, requirements k={w['k']!r}) "
+                                         f"[{w['label']}], registered at tick {reg[lw]['idx']}; the event T{w['ty']}(uid={getattr(e, 'uid', None)}, k={getattr(e, 'k', None)!r}) "
+                                         f"reduced at tick {idx} satisfies it, but the invocation is neither replayed nor queued", case))
+    for w in wcs:
+        lw = (w["step"], w["uid"], w["label"])
+        if (w["step"], w["label"]) in shared:
+            continue
+        if not resumed and w["outcome"] in ("got", "timeout") and (lw not in reg or reg[lw]["idx"] >= w["at_call"]) and ("ret", lw) not in said:
+            said.add(("ret", lw))
+            out.append(Violation("C10/wait_returned_without_waiting:" + w["outcome"],
+                                 f"step {w['step']}, input event {w['uid']}: wait_for_event(T{w['ty']}, requirements k={w['k']!r}) [{w['label']}] "
+                                 f"{'returned ' + repr(w.get('got')) if w['outcome'] == 'got' else 'raised TimeoutError'} although this wait was never registered "
+                                 f"(no AddWaiter of it was reduced before): it did not wait for its own reply", case))
+    # (the harness derives the waiter_event's uid from the invocation's input event: the same event delivered to two waiting
+    # steps gives two announcements with one uid -- counted per group of waits that share the announcement's identity)
+    groups: dict[tuple, list] = {}
+    for lw, r in reg.items():
+        if r["w"]["wev_uid"] is not None:
+            groups.setdefault((r["w"]["wev_ty"], r["w"]["wev_uid"]), []).append(r)
+    for (wty, wuid), rs in groups.items():
+        if any((r["w"]["step"], r["w"]["label"]) in shared for r in rs):
+            continue
+        n = sum(1 for (e, *_r) in tr.stream if getattr(e, "uid", None) == wuid and ET.TY_ID.get(type(e)) == wty)
+        if n > len(rs) or (n < len(rs) and not resumed):
+            w = rs[-1]["w"]
+            out.append(Violation("C10/waiter_event_not_once:per_wait:" + ("never" if n < len(rs) else "repeated"),
+                                 f"step {w['step']}, input event {w['uid']}: wait_for_event(T{w['ty']}, requirements k={w['k']!r}) [{w['label']}] was registered at tick "
+                                 f"{rs[-1]['idx']} with waiter_event uid {wuid}; " + (f"that event was published {n} times" if len(rs) == 1 else
+                                 f"{len(rs)} waits announce themselves with that event ({[(r['w']['step'], r['w']['label']) for r in rs]}), it was published {n} times"), case))
+            out[-1].meta = {"step": w["step"], "uid": w["uid"]}  # type: ignore[attr-defined]
+    for w in wcs:
+        w.pop("_reg", None)
     return out
 
 
